@@ -482,7 +482,8 @@ def gen_roundtrip_events(rng, n, backend):
         tags = [[x if len(x) < 200 else x[:150] for x in t] for t in tags]
         tags = [t for t in tags if not (t[0] in ("expiration", "delegation"))]   # their semantics belong to C17 / C03
         content = rng.choice(HOSTILE)
-        evs.append(mk_signed(i % 4, kind, ca + i if ca >= env.NOW - 5 else ca + i, tags, content))
+        tags.append(["nonce", str(i)])
+        evs.append(mk_signed(i % 4, kind, ca + i if ca in (env.NOW, env.NOW - 5) else ca, tags, content))
     return evs
 
 
@@ -558,7 +559,7 @@ def suite_roundtrip(tier, rng):
         frames, codec_cases, codec_owner = [], [], []
         for r in recs:
             d = r["submitted"]
-            wf = all(isinstance(t, list) and all(isinstance(x, str) for x in t) for t in d["tags"])
+            wf = all(isinstance(t, list) and len(t) > 0 and all(isinstance(x, str) for x in t) for t in d["tags"])
             esc = json.dumps(d["content"], ensure_ascii=False) != '"%s"' % d["content"] or any(json.dumps(x, ensure_ascii=False) != '"%s"' % x for t in d["tags"] if isinstance(t, list) for x in t if isinstance(x, str))
             s.case({"backend": backend, "content": d["content"][:40], "tags": str(d["tags"])[:80]}, nontrivial=esc)
             s.count("%s_%s_%s" % (backend, "wf" if wf else "nonstring_tags", "accepted" if r["accepted"] else "refused"))
